@@ -16,7 +16,7 @@ Local Open Scope list_scope.
    For every container kind, container attribute list, ASCII identifier (plain or raw: r#type is named
    type, as serde does) and item attribute list of the
    domain (rename = any string, skip, any other name or name = any string, in any order, in any number
-   of #[serde] attributes) outside the six recorded classes (C06-2, -3, -4, -5, -8, -9): the emitted keys / literals are exactly
+   of #[serde] attributes) outside the four recorded classes (C06-2, -3, -4, -5): the emitted keys / literals are exactly
    serde's wire names - an item rename wins, the container rule is the field rule for struct fields
    and the variant rule for variants, unattributed items keep their Rust name, an item is absent iff
    it carries skip. (The naming routines are total since the camelCase guards.) *)
@@ -98,15 +98,12 @@ Proof. exact rules_agree. Qed.
 
 (* the scanners on one attribute, on the complement of C06-4 / C06-5 and for every value text *)
 Theorem C06_parse_rename : forall g : group,
-  forallb other_ok g = true ->
+  forallb other_ok g = true -> count_renames g <= 1 ->
   (forall m, In m g -> rename_free m) ->
-  (forall v, head_rename g = Some v -> needs_escape v = false) ->
-  parse_rename (group_string g) = head_rename g.
+  (forall l, In (MRenameP l) g -> p_bad l = false) ->
+  (forall v, first_rename g = Some v -> needs_escape v = false) ->
+  parse_rename (group_string g) = first_rename g.
 Proof. exact parse_rename_group. Qed.
-(* the head value (first quoted value after the key, either spelling) is the serialize name outside C06-8 *)
-Theorem C06_head_is_serialize : forall g : group, forallb other_ok g = true ->
-  (forall l, In (MRenameP l) g -> sd_bad l = false) -> head_rename g = first_rename g.
-Proof. exact head_rename_is_first. Qed.
 
 Theorem C06_skip_test : forall g : group,
   field_skip (group_string g) = existsb skip_in g && negb (existsb skipser_in g).
@@ -130,18 +127,19 @@ Proof. exact skip_beside_refuted. Qed.
 Theorem C06_rename_escape_refuted :
   refutes kf_rename_escape w4 [L "a\"] /\ serde_wire_names w4 = [L "a""b"].
 Proof. exact rename_escape_refuted. Qed.
-Theorem C06_rename_text_refuted : refutes kf_rename_text w5 [L "x"] /\ serde_wire_names w5 = [L "e"].
+Theorem C06_rename_text_refuted : refutes kf_rename_text w5 [L " , alias = "] /\ serde_wire_names w5 = [L "e"].
 Proof. exact rename_text_refuted. Qed.
 Theorem C06_skip_text_variant_refuted : refutes kf_skip_text w2e [L "A"] /\ serde_wire_names w2e = [L "A"; L "B"].
 Proof. exact skip_text_variant_refuted. Qed.
 Theorem C06_skip_beside_variant_refuted : refutes kf_skip_beside w3e [L "A"; L "B"] /\ serde_wire_names w3e = [L "A"].
 Proof. exact skip_beside_variant_refuted. Qed.
-(* C06-8: the parenthesised form with deserialize first (or alone); C06-9: rename_all_fields read as rename_all *)
-Theorem C06_sd_first_refuted : refutes kf_sd_first w8 [L "userId"] /\ serde_wire_names w8 = [L "user_id"] /\
-  refutes kf_sd_first w8i [L "de_name"] /\ serde_wire_names w8i = [L "ser_name"].
-Proof. exact sd_first_refuted. Qed.
-Theorem C06_rename_all_text_refuted : refutes kf_rename_all_text w9 [L "taskStarted"] /\ serde_wire_names w9 = [L "TaskStarted"].
-Proof. exact rename_all_text_refuted. Qed.
+(* repaired by C06-8-9-serde-attr-spellings: the witnesses of C06-8 (deserialize alone / first), of C06-9
+   (rename_all_fields) and the former witness of C06-5 now satisfy the property, outside every class;
+   the oracle rejects the old outputs *)
+Theorem C06_spellings_repaired :
+  repaired w8 [L "user_id"] /\ repaired w8i [L "ser_name"] /\ repaired w9 [L "TaskStarted"] /\ repaired w5old [L "e"] /\
+  c06_ok w8 [L "userId"] = false /\ c06_ok w8i [L "de_name"] = false /\ c06_ok w9 [L "taskStarted"] = false.
+Proof. exact spellings_repaired. Qed.
 (* every variant shape (unit, tuple, struct) is named by the variant routine: the three markers
    parse_enum writes all pass the starts_with test of FieldContext::from_field_info *)
 Theorem C06_variant_shapes : forall sh : shape, named_as_variant (variant_marker sh) = true.
@@ -227,7 +225,6 @@ Print Assumptions C06_field_rule.
 Print Assumptions C06_variant_rule.
 Print Assumptions C06_rules_agree.
 Print Assumptions C06_parse_rename.
-Print Assumptions C06_head_is_serialize.
 Print Assumptions C06_skip_test.
 Print Assumptions C06_variant_rule_repaired.
 Print Assumptions C06_variant_skip_repaired.
@@ -237,7 +234,6 @@ Print Assumptions C06_rename_escape_refuted.
 Print Assumptions C06_rename_text_refuted.
 Print Assumptions C06_skip_text_variant_refuted.
 Print Assumptions C06_skip_beside_variant_refuted.
-Print Assumptions C06_sd_first_refuted.
-Print Assumptions C06_rename_all_text_refuted.
+Print Assumptions C06_spellings_repaired.
 Print Assumptions C06_variant_shapes.
 Print Assumptions C06_other_attrs_inert_refuted.
